@@ -34,7 +34,7 @@ structure HlRow where
   hi : Nat
   sub : Nat
   add : Nat
-  deriving Repr
+  deriving Repr, Inhabited
 
 /-! ### Regular expressions (the subset used by patterns.json)
 
